@@ -301,4 +301,184 @@ theorem parseString_slice (d : Bytes) (r : Reader) (h : Inv d r) :
     show r.offset + a.1 ≤ d.size
     omega
 
+open Firefly.Gen.C12 in
+macro "wp_step" : tactic => `(tactic| first
+  | apply wp_bind | apply wp_offset | apply wp_pkgEnd | apply wp_setOffset | apply wp_eof | dsimp only)
+
+theorem skipNamePrefix_spec (d : Bytes) (f : Nat) (r : Reader) (h : Inv d r) :
+    wp (skipNamePrefix d f) (fun b r' => Inv d r' ∧ r.offset ≤ r'.offset ∧ r'.pkgEnd = r.pkgEnd ∧
+      (b = true → r'.offset < r'.pkgEnd)) r := by
+  induction f generalizing r with
+  | zero => unfold skipNamePrefix; exact wp_pure ⟨h, Nat.le_refl _, rfl, by simp⟩
+  | succ f ih =>
+    unfold skipNamePrefix
+    apply wp_bind
+    apply wp_peekByte h
+    · intro _; exact wp_pure ⟨h, Nat.le_refl _, rfl, by simp⟩
+    · intro b hlt _
+      dsimp only
+      split
+      · exact wp_pure ⟨h, Nat.le_refl _, rfl, fun _ => hlt⟩
+      · apply wp_bind
+        apply wp_readByte h
+        · intro hc; omega
+        · intro b' _ _
+          have h' : Inv d { r with offset := r.offset + 1 } := ⟨by show r.offset + 1 ≤ d.size; have := h.2; omega, h.2⟩
+          refine wp_mono (ih _ h') ?_
+          intro a r' ⟨hi, hle, hpe, hb⟩
+          exact ⟨hi, by simp only at hle; omega, hpe, hb⟩
+
+theorem setOff_val (d : Bytes) (hd : d.size + 1024 ≤ 4294967296) (k : Nat) (hk : k ≤ 1020) (r : Reader) (h : Inv d r)
+    (hle : ¬ u32 (r.offset + k) > r.pkgEnd) :
+    (if u32 (r.offset + k) > d.size then d.size else u32 (r.offset + k)) = r.offset + k := by
+  have h1 := h.1
+  have h2 := h.2
+  have hu : u32 (r.offset + k) = r.offset + k := by unfold u32; omega
+  rw [hu] at hle ⊢
+  split <;> omega
+
+theorem finishPath (d : Bytes) (hd : d.size + 1024 ≤ 4294967296) (start k : Nat) (hk : k ≤ 1020) (r0 r : Reader)
+    (h : Inv d r) (h0 : r0.offset ≤ r.offset) (hle : ¬ u32 (r.offset + k) > r.pkgEnd) :
+    wp (do setOffset d (u32 (r.offset + k)); pure (some start) : LexM (Option Nat))
+      (fun a r' => Inv d r' ∧ r0.offset ≤ r'.offset ∧ ∀ st, a = some st → st = start ∨ st = r'.offset) r := by
+  have hsz := h.1
+  have hpe := h.2
+  apply wp_bind
+  apply wp_setOffset
+  rw [setOff_val d hd k hk r h hle]
+  have hu : u32 (r.offset + k) = r.offset + k := by unfold u32; omega
+  rw [hu] at hle
+  exact wp_pure ⟨⟨by show r.offset + k ≤ d.size; omega, hpe⟩, by show r0.offset ≤ r.offset + k; omega,
+    by intro st hst; simp at hst; left; exact hst.symm⟩
+
+theorem parseNamePath_spec (d : Bytes) (hd : d.size + 1024 ≤ 4294967296) (next start : Nat) (r : Reader) (h : Inv d r) :
+    wp (parseNamePath d next start) (fun a r' => Inv d r' ∧ r.offset ≤ r'.offset ∧
+      ∀ st, a = some st → st = start ∨ st = r'.offset) r := by
+  have hsz := h.1
+  have hpe := h.2
+  unfold parseNamePath
+  split
+  · repeat wp_step
+    exact wp_pure ⟨h, Nat.le_refl _, by intro st hst; simp at hst; right; exact hst.symm⟩
+  · split
+    · repeat wp_step
+      split
+      · exact wp_pure ⟨h, Nat.le_refl _, by intro st hst; simp at hst⟩
+      · rename_i hle
+        exact finishPath d hd start _ (by simp [Firefly.Gen.C12.amlNameLen]) r r h (Nat.le_refl _) hle
+    · split
+      · apply wp_bind
+        apply wp_readByte h
+        · intro _; exact wp_pure ⟨h, Nat.le_refl _, by intro st hst; simp at hst⟩
+        · intro b hlt _
+          have h' : Inv d { r with offset := r.offset + 1 } := ⟨by show r.offset + 1 ≤ d.size; omega, hpe⟩
+          dsimp only
+          split
+          · exact wp_pure ⟨h', by show r.offset ≤ r.offset + 1; omega, by intro st hst; simp at hst⟩
+          · repeat wp_step
+            split
+            · exact wp_pure ⟨h', by show r.offset ≤ r.offset + 1; omega, by intro st hst; simp at hst⟩
+            · rename_i hle
+              refine finishPath d hd start _ ?_ r _ h' (by show r.offset ≤ r.offset + 1; omega) hle
+              have := b.toNat_lt
+              simp [Firefly.Gen.C12.amlNameLen]; omega
+      · split
+        · exact wp_pure ⟨h, Nat.le_refl _, by intro st hst; simp at hst⟩
+        · repeat wp_step
+          split
+          · exact wp_pure ⟨h, Nat.le_refl _, by intro st hst; simp at hst⟩
+          · rename_i hle
+            exact finishPath d hd start _ (by simp [Firefly.Gen.C12.amlNameLen]) r r h (Nat.le_refl _) hle
+
+theorem parseNameString_slice (d : Bytes) (hd : d.size + 1024 ≤ 4294967296) (r : Reader) (h : Inv d r) :
+    wp (parseNameString d) (fun a r' => Inv d r' ∧ SliceIn d a.1 ∧ (a.2 = .ok → a.1.data = some r.offset)) r := by
+  unfold parseNameString
+  have body : ∀ data : Option Nat, (∀ o, data = some o → o = r.offset) → (r.offset < r.pkgEnd → data = some r.offset) →
+      wp (do
+        let startOffset ← offset
+        if (← skipNamePrefix d (d.size + 1)) then
+          let next := ((← readByte d).getD 0).toNat
+          match ← parseNamePath d next startOffset with
+          | none => return ({}, PRes.failed)
+          | some startOffset =>
+            return ({ data := data, len := u32 ((← offset) + 4294967296 - startOffset) }, PRes.ok)
+        else return ({}, PRes.failed) : LexM (Slice × PRes))
+      (fun a r' => Inv d r' ∧ SliceIn d a.1 ∧ (a.2 = .ok → a.1.data = some r.offset)) r := by
+    intro data hdata hdata2
+    have nilOk : ∀ r', Inv d r' → Inv d r' ∧ SliceIn d ({} : Slice) ∧ (PRes.failed = PRes.ok → ({} : Slice).data = some r.offset) :=
+      fun r' hi => ⟨hi, by intro o ho; simp at ho, by intro hc; cases hc⟩
+    apply wp_bind; apply wp_offset
+    apply wp_bind
+    refine wp_mono (skipNamePrefix_spec d _ r h) ?_
+    intro b r1 ⟨hi1, hle1, hpe1, hb1⟩
+    split
+    · rename_i hbt
+      have hlt1 := hb1 hbt
+      apply wp_bind
+      apply wp_readByte hi1
+      · intro hc; omega
+      · intro b1 _ _
+        have hi2 : Inv d { r1 with offset := r1.offset + 1 } := ⟨by show r1.offset + 1 ≤ d.size; have := hi1.2; omega, hi1.2⟩
+        apply wp_bind
+        refine wp_mono (parseNamePath_spec d hd _ r.offset _ hi2) ?_
+        intro a r3 ⟨hi3, hle3, hst⟩
+        split
+        · exact wp_pure (nilOk _ hi3)
+        · rename_i st
+          apply wp_bind; apply wp_offset
+          refine wp_pure ⟨hi3, ?_, ?_⟩
+          · intro o ho
+            have ho' := hdata o ho
+            subst ho'
+            have h3 := hi3.1
+            have hle3' : r1.offset + 1 ≤ r3.offset := hle3
+            show r.offset + u32 (r3.offset + 4294967296 - st) ≤ d.size
+            rcases hst st rfl with e | e
+            · subst e; unfold u32; omega
+            · subst e; unfold u32; omega
+          · intro _
+            apply hdata2
+            have := hi1.2
+            omega
+    · exact wp_pure (nilOk _ hi1)
+  apply wp_bind
+  apply wp_dataPtr h
+  · intro hge
+    exact body none (by intro o ho; simp at ho) (by intro hc; omega)
+  · intro hlt
+    exact body (some r.offset) (by intro o ho; simp at ho; exact ho.symm) (by intro _; rfl)
+
+
+theorem parseByteListRaw_slice (d : Bytes) (n : Nat) (r : Reader) (h : Inv d r)
+    (hfit : r.pkgEnd ≤ r.offset ∨ r.offset + n ≤ r.pkgEnd) :
+    wp (parseByteListRaw d n) (fun sl r' => Inv d r' ∧ SliceIn d sl) r := by
+  unfold parseByteListRaw
+  have hi : ∀ off, Inv d { r with offset := if off > d.size then d.size else off } := by
+    intro off
+    refine ⟨?_, h.2⟩
+    show (if off > d.size then d.size else off) ≤ d.size
+    split <;> omega
+  apply wp_bind
+  apply wp_dataPtr h
+  · intro _
+    repeat wp_step
+    exact wp_pure ⟨hi _, by intro o ho; simp at ho⟩
+  · intro hlt
+    repeat wp_step
+    refine wp_pure ⟨hi _, ?_⟩
+    intro o ho
+    simp only [Option.some.injEq] at ho
+    subst ho
+    have := h.2
+    show r.offset + n ≤ d.size
+    omega
+
+/-- the length `parseArg` passes for a ByteList argument, `pkgEnd - Offset()` in `uint32`, fits -/
+theorem byteListArg_fits (d : Bytes) (hd : d.size < 4294967296) (r : Reader) (h : Inv d r) :
+    r.pkgEnd ≤ r.offset ∨ r.offset + u32 (r.pkgEnd + 4294967296 - r.offset) ≤ r.pkgEnd := by
+  have := h.1
+  have := h.2
+  unfold u32
+  omega
+
 end Firefly.AmlLex
